@@ -114,6 +114,11 @@ func runWithOverlay(spec *PropSpec, repo string, ov map[string][]byte, goos, goa
 		}
 		progs[n] = p
 	}
+	defer func() {
+		for _, p := range progs {
+			p.Release()
+		}
+	}()
 	sub := NewCtx(spec.ID, progs)
 	func() {
 		defer func() {
